@@ -70,6 +70,19 @@ CHECKS = {
    note="reals for floats; part kernels and make_details replaced by their contracts; combined-table layout is a precondition "
         "(ParameterTable); part count enumerated 1..4; one recorded known finding (mixture-wide magnetic flag)",
    technique=TECH + "Python AST -> VCs -> z3, counter-models replayed on the real MixtureKernel", design="DESIGN.md 6 C08"),
+ "C09": dict(engine="pyvc",
+   text="kernelpy._loops (the Python dispersity loop) is executed symbolically from the AST of the current tree and proved against the "
+        "same postcondition as the generated C kernel (result = hstack of the mesh sums of [W>cutoff and no NaN] W f(P(s)) with P, W "
+        "defined through decode_k): loop invariant over the symbolic mesh (RangeInvariant) with the mixed-radix lemmas, obligation "
+        "'parameter vector = P(step)' at every call of form/form_volume/form_radius, num_active 1..5 enumerated (= MAX_PD), all "
+        "sizes and values symbolic; the num_active==0 shortcut is its own obligation.  Agreement of the two execution paths then "
+        "follows by transitivity through the common specification.",
+   note="products of reals and div/mod by symbolic divisors are uninterpreted in this VC (congruence suffices; the decode lemmas are "
+        "proved separately); hypothesis VALID(P) <=> form(P) has no NaN links the validity mechanisms; PyKernel.__init__ argument views "
+        "and definition validation (check_angles/check_duplicates) are bounded run-time contracts over enumerated tables; the C side "
+        "is C01",
+   technique=TECH + "Python AST -> loop-invariant VCs -> z3 (EUF + linear arithmetic with proved lemma instances)",
+   design="DESIGN.md 6 C09"),
  "C10": dict(engine="pyvc",
    text="_pop_par_weights (all flag combinations), get_mesh (the parameter tables of all 78 builtin models x 1d/2d, key universe "
         "of every legal key plus unknown names / dispersity suffixes on non-dispersible parameters, symbolic presence bits), "
